@@ -220,6 +220,11 @@ func RunDriver(o DriverOpts) int {
 					fmt.Printf("goatsim: INFRASTRUCTURE: worker %d: %s\n%s\n", shard, res.why, wr.stderr)
 				}
 				mu.Unlock()
+				if res.rest != nil {
+					mu.Lock()
+					runs = append(runs, &workerRun{shard: shard, sum: res.rest})
+					mu.Unlock()
+				}
 				fmt.Printf("goatsim: worker %d stopped at unit %d (%s: %s); the shard continues at unit %d\n", shard, res.msg.Unit, res.kind, res.why, res.next)
 				if res.kind == "infra" || res.next <= from {
 					return
@@ -368,6 +373,7 @@ type triageResult struct {
 	why  string
 	msg  Msg
 	next int // first unit after the offending one (the shard continues there)
+	rest *Summary // the careful re-run finished the shard: what it measured
 }
 
 var oomRe = regexp.MustCompile(`out of memory|cannot allocate memory|makeslice: len out of range`)
@@ -380,24 +386,31 @@ func triage(self string, o DriverOpts, e Engine, base []string, wr *workerRun, n
 		return triageHang(self, o, wr.hang)
 	}
 	careful := &workerRun{shard: wr.shard}
-	args := append(append([]string{}, base...), "--shard", fmt.Sprint(wr.shard), "--of", fmt.Sprint(n), "--from", fmt.Sprint(wr.lastUnit), "--careful")
+	cf := filepath.Join(work, fmt.Sprintf("careful-plan-%d.json", wr.shard))
+	args := append(append([]string{}, base...), "--shard", fmt.Sprint(wr.shard), "--of", fmt.Sprint(n), "--from", fmt.Sprint(wr.lastUnit), "--careful", "--careful-file", cf)
 	spawnWorker(self, o, args, careful)
 	if careful.hang != nil {
 		return triageHang(self, o, careful.hang)
 	}
 	if careful.err == nil && careful.sum != nil {
+		if oomRe.MatchString(wr.stderr) {
+			// memory exhaustion that a fresh process does not reproduce: garbage accumulated by
+			// earlier runs plus one large (legitimate) allocation of a script. The careful run
+			// has meanwhile finished the shard.
+			return triageResult{kind: "excepted", why: "out_of_memory_not_reproducible_in_a_fresh_process", msg: Msg{Unit: wr.lastUnit}, rest: careful.sum, next: -1}
+		}
 		return triageResult{kind: "infra", why: "worker death did not reproduce in a careful re-run (flaky infrastructure?)"}
 	}
 	unit := careful.lastUnit
-	planBytes, _ := os.ReadFile(filepath.Join(work, "careful-plan.json"))
+	planBytes, _ := os.ReadFile(cf)
 	// confirm alone
 	alone := &workerRun{}
-	args = append(append([]string{}, base...), "--shard", "0", "--of", "1", "--from", fmt.Sprint(unit), "--to", fmt.Sprint(unit+1), "--careful")
+	args = append(append([]string{}, base...), "--shard", "0", "--of", "1", "--from", fmt.Sprint(unit), "--to", fmt.Sprint(unit+1), "--careful", "--careful-file", cf)
 	spawnWorker(self, o, args, alone)
 	if alone.err == nil {
 		return triageResult{kind: "infra", why: fmt.Sprintf("death at unit %d did not reproduce alone", unit)}
 	}
-	if b, err := os.ReadFile(filepath.Join(work, "careful-plan.json")); err == nil {
+	if b, err := os.ReadFile(cf); err == nil {
 		planBytes = b
 	}
 	msg := Msg{Type: "violation", Unit: unit}
